@@ -173,6 +173,7 @@ def lowered_body(spec, unit, log):
     elif ex.handlers:
         log.append({"dropped": "function-try-block handlers", "count": len(ex.handlers)})
     body = lower.drop_diagnostics(body, log)
+    body = lower.MAKE_MALLOC.apply(body, log)
     rules = spec.rules + unit.rules
     body = lower.apply_rules(body, unit.rules, log, 'pre')
     body = lower.apply_rules(body, spec.rules, log, 'pre')
